@@ -74,7 +74,9 @@ def gen_cases(tier, seed, gen, effort):
             k = rnd.randrange(n)
             for _ in range(rnd.choice([1, 1, 2])):
                 rules.append(copy.deepcopy(rules[k])); files.append(files[k]); dirs.append("b" if dirs[k] == "a" else "a")
-        cases.append({"rules": rules, "files": files, "dirs": dirs, "vseed": rnd.getrandbits(30), "exclude": rnd.random() < 0.4})
+        cases.append({"rules": rules, "files": files, "dirs": dirs, "vseed": rnd.getrandbits(30), "exclude": rnd.random() < 0.4,
+                      # the exclusion table's entry for rules WITHOUT an id (key None): it concerns those rules only
+                      "exclude_none": rnd.random() < 0.3})
     return cases, False
 
 
@@ -118,6 +120,8 @@ def run_impl(case):
             excl = {}
             if case["exclude"] and rules[0].id is not None:
                 excl = {rules[0].id: {pool["DanglingDetectionValidator"]}}
+            if case.get("exclude_none"):
+                excl[None] = {pool["DanglingDetectionValidator"]}
             v = SigmaValidator([pool[x] for x in vorder], excl)
             issues = v.validate_rules(iter(rules))
             after = [(r.to_dict(), ) for r in rules]
@@ -132,7 +136,8 @@ def run_impl(case):
             except Exception as e:
                 conv_fresh = "ERR:" + outcome_of_exception(e)
             runs.append({"order": order, "unchanged": before == after, "conv_same": conv == conv_fresh,
-                         "issues": sorted((issue_key(i) for i in issues), key=repr), "excluded_rule": order[0] if excl else None})
+                         "issues": sorted((issue_key(i) for i in issues), key=repr),
+                         "excluded_rule": order[0] if (case["exclude"] and rules[0].id is not None) else None})
         # validation AFTER a conversion whose pipeline rewrites the rules (a condition added to every rule, fields renamed): the
         # reference checks are exact for the rules as they are now
         post = None
@@ -209,6 +214,7 @@ def judge(case, impl, reply):
             if rr.get("parseError"):
                 continue
             excluded = run["excluded_rule"] == k or (run["excluded_rule"] is not None and "id" in r and r.get("id") == case["rules"][run["excluded_rule"]].get("id"))
+            excluded = excluded or (bool(case.get("exclude_none")) and "id" not in r)
             got_dd = sorted(dict(i[2])["detection_name"] for i in issues if i[0] == "DanglingDetectionIssue" and i[1] == [ident[k]])
             want_dd = [] if excluded else sorted(uncps(x) for x in rr["danglingDetections"])
             # several rules may share title and path: then issues of both are pooled; compare pooled
@@ -217,7 +223,7 @@ def judge(case, impl, reply):
                 continue
             if got_dd != want_dd:
                 return Verdict("violation", (f"rule {r['detection']}: reported unused detections {got_dd}, exactly {want_dd} are referred to by no condition"
-                                             f"{' (DanglingDetectionValidator is excluded for this rule id)' if excluded else ''}"), nt, key, tags=tuple(tags))
+                                             f"{' (DanglingDetectionValidator is excluded for this rule id / for rules without id)' if excluded else ''}"), nt, key, tags=tuple(tags))
             got_dc = sorted(dict(i[2])["condition_name"] for i in issues if i[0] == "DanglingConditionIssue" and i[1] == [ident[k]])
             want_dc = sorted(uncps(x) for x in rr["danglingConditions"])
             if got_dc != want_dc:
